@@ -4,6 +4,10 @@ import json, os
 HERE = os.path.dirname(os.path.dirname(os.path.abspath(__file__)))
 
 CLAIMED = {
+ "C10": dict(level="fault_enumeration", ref="§4 C10",
+   technique="deterministic simulation with an alias-scribble fault: for each seeded program over the slice-taking / slice-returning API, every registered caller-visible slice x instant is re-executed with the caller overwriting the slice; twin-run equality of every observation plus immutability invariants after every step",
+   text="Seeded programs over the public surface that takes or returns slices, followed by BackPropagate / Update / Reset. Fault placement is enumerated per program (quick: every slice x {right after the call, just before each later BackPropagate, at the end}; thorough: x every later instant). Every observation of the faulted run must equal the un-faulted twin bitwise, and in every run no step may change an existing tensor's shape/elements, gradients appear only during BackPropagate on tensors upstream of the root, tracking state changes only by ResetGradContext. Exhaustive over fault placement within a program, sampling over programs.",
+   note="Trusted: reflect-based fingerprints, the operand-link notion of 'upstream'. Scribbles overwrite in place (no append); the RNG is re-seeded identically for twin and faulted run."),
  "C08": dict(level="exploration", ref="§4 C08",
    technique="deterministic simulation: seeded interleaved histories of creation / operations / BackPropagate / ResetGradContext by 1-4 clients on a shared pool with invalid-call faults, checked step by step against a small reference state machine, plus untracked twin run and final back-propagation sweep",
    text="Seeded search over call histories on a shared tensor pool. A reference state machine (tracked, spent, hasGrad, operand links) makes every tracking decision and enforces the property's provisos during generation; after every step the nil-ness of every tensor's gradient, the reflected state of every tensor the step must not touch, and the effect of rejected calls are compared with the model; a twin run with tracking off must give bitwise-equal forward values; a final sweep back-propagates every tensor still allowed so that 'tracked' becomes observable. Sampling, not proof.",
